@@ -131,7 +131,25 @@ def main():
         if src is not None:
             ch = gws[g["id"]].remote_exec(src)
             chans.append(ch)
-            first = ch.receive(30)
+            try:
+                first = ch.receive(30)
+            except Exception as e:  # noqa
+                if not (act.startswith("python_sigint") and "main thread" in str(e)):
+                    raise
+                # (the worker's main thread had not become available again after the previous execution, so this one was
+                # given another thread, where the signal module refuses to work: ask again until it runs in the main thread)
+                for _ in range(20):
+                    time.sleep(0.3)
+                    ch = gws[g["id"]].remote_exec(src)
+                    try:
+                        first = ch.receive(30)
+                        chans.append(ch)
+                        break
+                    except Exception as e2:  # noqa
+                        if "main thread" not in str(e2):
+                            raise
+                else:
+                    raise
             if act in ("endmarker_raises", "callback_service"):
                 chans.append(first)  # the sub-channel whose remote end carries the failing callback
                 first = ch.receive(30)
